@@ -113,12 +113,40 @@ def derived_history(rng):
     return ([], body, [])
 
 
+def literal_history(rng):
+    """a literal evaluates to a fresh value each time it is executed: the same literal of constants in a loop body or in a method
+    called several times, each result held by reference (item of a list, 得到 name, argument) and changed in place"""
+    lit = lambda: Arr([Num(rng.randrange(0, 9)) for _ in range(rng.randrange(1, 4))]) if rng.random() < 0.8 else Arr([Str("a"), Str("b")])
+    body = [Decl([(False, ["B"], Arr([]))])]
+    if rng.random() < 0.5:
+        L = lit()
+        loop = [ExprS(Method(Var("B"), [("后增", [L])])),
+                ExprS(AssignIndex(Index(Var("B"), Var("K")), Num(1), Arith("+", Var("K"), Num(10))))]
+        if rng.random() < 0.5:
+            loop.append(ExprS(Method(Index(Var("B"), Var("K")), [("后增", [Var("K")])])))
+        loop.append(Display(Var("B")))
+        body.append(Iter(Arr([Num(1), Num(2), Num(3)]), ["K", "V"], loop))
+    else:
+        L = lit()
+        body.insert(0, Func("Mk", [], [Return(L)]))
+        for i in range(rng.randrange(2, 4)):
+            r = "R%d" % i
+            body.append(ExprS(Call("Mk", [], r)))
+            body.append(ExprS(Method(Var(r), [rng.choice([("后增", [Num(90 + i)]), ("左移", []), ("前增", [Num(70 + i)])])])))
+            body.append(ExprS(Method(Var("B"), [("后增", [Var(r)])])))
+            body.append(Display(Var(r), Var("B")))
+        body.append(Display(Call("Mk", [])))
+    body.append(Return(Var("B")))
+    return ([], body, [])
+
+
 def run(chk, replay=None):
     n = 60 if chk.tier == "quick" else 600
     extra = [(history(chk.rng), None, "history") for _ in range(n)] if replay is None else []
     if replay is None:
         # every object starts from its own copy of the type's defaults (numbers included) and is shared, never copied, afterwards
         extra += [(derived_history(chk.rng), None, "derived-list-history") for _ in range(30 if chk.tier == "quick" else 300)]
+        extra += [(literal_history(chk.rng), None, "literal-history") for _ in range(20 if chk.tier == "quick" else 200)]
         from props import c08
         extra += [(c08.object_history(chk.rng), None, "object-history") for _ in range(25 if chk.tier == "quick" else 300)]
     semprop.run_property(chk, "C07", "c07", PROFILES, 80, 900, replay=replay, extra_programs=extra,
